@@ -4,7 +4,7 @@
 # without the change; stores it under seeded/<name>/; then runs the named checks with VERIF_REPO pointing at the patched worktree
 # (equivalent to `git -C /repo apply` + run + `git -C /repo checkout -- .`, without disturbing /repo).
 ID=$1; NAME=$2; shift 2
-WT=/tmp/wt/$ID
+WT=${WTROOT:-/tmp/wt}/$ID
 OUT=/verif/seeded/$NAME
 mkdir -p $OUT
 cd $WT || exit 2
